@@ -751,7 +751,14 @@ impl<'a> Gen<'a> {
             self.depth += 1;
             if self.f.locals && self.f.loops && self.rng.chance(1, 4) {
                 // a local re-initialised inside a loop
-                self.emits(&["0", "local", "acc", "3", "0", "do", "acc", "I", "+", "local", "acc", "loop"]);
+                if self.f.tags && self.rng.chance(1, 3) {
+                    // ... with the same number under a different tag each time round
+                    self.emits(&["7", "local", "acc", "3", "0", "do", "7", "I", "\"t\"", "insert-tag", "local", "acc", "loop"]);
+                } else if self.f.wide && self.f.tags && self.rng.chance(1, 3) {
+                    self.emits(&["7", "local", "acc", "2", "0", "do", "7", "^hex", "local", "acc", "acc", "drop", "7", "local", "acc", "loop"]);
+                } else {
+                    self.emits(&["0", "local", "acc", "3", "0", "do", "acc", "I", "+", "local", "acc", "loop"]);
+                }
                 self.locals.push(("acc".into(), Ty::Int));
             }
             self.depth -= 1;
@@ -803,7 +810,14 @@ impl<'a> Gen<'a> {
         }
         let i = self.rng.below(self.env.vars.len());
         let v = self.env.vars[i].clone();
-        if self.rng.chance(1, 2) {
+        if self.f.tags && self.rng.chance(1, 8) {
+            // store the value the variable already holds, differing in its tags only
+            self.emit(&v.name);
+            let t = self.int_lit();
+            self.emit(&t);
+            self.emits(&["\"t\"", "insert-tag", "!"]);
+            self.emit(&v.name);
+        } else if self.rng.chance(1, 2) {
             self.emit(&v.name);
             self.push(v.ty);
         } else {
